@@ -61,15 +61,20 @@ ASSUMPTIONS = [
     'err family: arguments are not shipped through dill (symbolic reals cannot cross the C boundary)',
 ]
 BOUNDS = {
-    'quick': 'fe: W=3, <=3 items (widths 1-3, symbolic cycle positions -> alone in a cycle / adjacent / gaps), 6 body '
-             'behaviours, symbolic collect/replace bits, symbolic 3-qudit machine graph and placement (2 items); '
-             'ctl: depth<=2 trees, first slot nested, <=4 scripted outcomes, 3 leaf behaviours, 2-3 ParallelDo branches',
-    'thorough': 'fe: W=3..4, <=4 items, all ordered locations, 4-qudit machine; ctl: every slot nested, <=5 outcomes',
+    'quick': 'fe: W=3; 2 items (first width fixed per shard, second fully symbolic: block/plain gate, width 1-3, sorted '
+             'and reversed locations, cycle position -> alone in a cycle / adjacent / gaps) with collect and replace '
+             'bits; 3 blocks (structure; filter bits); 6 body behaviours on 1-2 blocks; less-than and always filters; '
+             'shipped results; every 3-qudit machine graph x placement x seed on every ordered block location; '
+             'ctl: depth<=2 trees (first slot nested) of 9 outer kinds x 9 inner kinds, <=4 symbolic outcomes then '
+             'loop-ending outcomes, 3 leaf behaviours, ParallelDo with 2-3 branches and symbolic next() batches; '
+             'err: 3 blocks, all 8 accept patterns, symbolic reals in [0,1]',
+    'thorough': 'fe: W=3..4, all ordered locations, 2 inner shapes, <=4 items, 4-qudit machine; ctl: every slot nested, '
+                '<=5 outcomes, shipped results',
 }
-OUTSIDE = ('calculate_error_bound=True inside _sub_do_work (needs unitaries: numeric distance is C06/C18 territory; '
-           'here errors are injected by the body); string replace filters other than always/less-than (their decision '
-           'functions are data plumbing around gate counts); nesting depth > 2; more than 4 blocks; radix != 2; '
-           'real-runtime scheduling')
+OUTSIDE = ('calculate_error_bound=True inside _sub_do_work (needs unitaries: the numeric distance is C06/C18 territory; '
+           'here errors are injected by the body and the bound arithmetic is decided over reals); string replace '
+           'filters other than always/less-than; nesting depth > 2; more than 4 blocks; radix != 2; scheduling of the '
+           'real runtime (C12-C14)')
 
 
 # =========================================================================== ForEach family
@@ -770,7 +775,7 @@ def obligations(tier: str) -> list[dict]:
                                             'collect': 'default', 'rf': 'always', 'behs': [B_ID]}, T)
         for o in outers + ['pardof3']:
             for gname, g in (('G1', G1), ('G2', G2), ('G3', G3)):
-                ob('ctl/%s/%s' % (o, gname), 'ctl', {'outer': o, 'preds': ['s', 'n'], 'inner': g, 'nest_all': True,
+                ob('ctl/%s/%s' % (o, gname), 'ctl', {'outer': o, 'preds': ['s', 'n'], 'inner': g, 'nest_all': o not in ('pardo3', 'pardof3'),
                                                      'max_script': 5 if o in ('if', 'dtd', 'seq', 'foreach') else 4}, T)
             ob('ctl/%s/shipped-results' % o, 'ctl', {'outer': o, 'preds': ['s'], 'ship': True,
                                                      'depth': 1 if o == 'pardof3' else 2}, T)
